@@ -56,6 +56,9 @@ CHECKS = {
  'C15': dict(cat='proof', tech='deductive: postconditions "completed or re-armed within the deadline" with a ghost clock on the real _start_timer/_on_timeout/_on_speculative_execute/start_fetching_next_page/send_request',
              text='The TIMER invariant (finite timeout and not completed => a live timer with deadline within the budget) is established and preserved by each timer-handling method for arbitrary clock readings; boundedness follows by a ranking argument (meta-argument). Timer service accuracy is assumed (E-TIMER).',
              ref='DESIGN.md §4 C15'),
+ 'C09': dict(cat='proof', tech='deductive: lock-invariant (INV-ID) contracts on get_request_id, HostConnection.borrow_connection/return_connection, Connection.process_msg, ResponseFuture._on_timeout (orphaning), the id-pool set-up slice of Connection.__init__, stream tracking in _query; frame scans of in_flight/request_ids/orphaned_request_ids',
+             text='Each operation on the stream-id pool is verified for an arbitrary connection state satisfying INV-ID (symbolic free list, registered and orphaned ids): ids handed out are free, unique, within the protocol maximum; responses reach only the handler registered for their stream; orphaning keeps in_flight. Interleavings are covered by the lock discipline + A-AFFINITY (induction over operations is a meta-argument).',
+             ref='DESIGN.md §4 C09'),
 }
 
 NA_REASON = {}
